@@ -6,6 +6,7 @@ def run_bounded(run, clauses, label, function, per_job=None, njobs=14):
     per_job = per_job or (3 if run.tier == "quick" else 30)
     jobs = [dict(seed=run.seed, start=k * per_job, count=per_job, clauses=list(clauses)) for k in range(njobs)]
     res, errs = native.pmap("contracts.scenarios", "run_scenarios", jobs)
+    run.worker_errors(errs, len(jobs))
     ev = sum(r["evaluations"] for r in res if r and "_error" not in r)
     fails = [f for r in res if r and "_error" not in r for f in r["failures"]]
     if errs:
